@@ -127,8 +127,8 @@ theorem eraseP_nokey (m p : Bytes) (l : List CRoute) (hnd : (dkeys l).Nodup) :
 
 /-! ### the dynamic list after a registration sequence -/
 
-/-- routes of the vocabulary whose text `CompileRoute` leaves as it is -/
-def GoodR (R : List Route) : Prop := ∀ r ∈ R, NormalPat r.text r.pat ∧ trimSpace r.text = r.text
+/-- routes of the vocabulary -/
+def GoodR (R : List Route) : Prop := ∀ r ∈ R, NormalPat r.text r.pat
 
 /-- every compiled route in the dynamic list is the compiled form of a parameter route without
 wildcard that is the last registration of its (method, pattern); one entry per (method, pattern) -/
@@ -136,11 +136,11 @@ def DynInv (Rp : List Route) (dyn : List CRoute) : Prop :=
   (∀ cr ∈ dyn, ∃ R1 r R2, Rp = R1 ++ r :: R2 ∧ cr = C r ∧ cr.isStatic = false ∧ cr.hasWildcard = false ∧
       ∀ r' ∈ R2, ¬ (r'.method = r.method ∧ r'.text = r.text)) ∧ (dkeys dyn).Nodup
 
-theorem C_meta (r : Route) (hn : NormalPat r.text r.pat) (ht : trimSpace r.text = r.text) :
-    (C r).method = r.method ∧ (C r).pattern = r.text ∧ (C r).rid = r.rid := compileRoute_meta r hn ht
+theorem C_meta (r : Route) (hn : NormalPat r.text r.pat) :
+    (C r).method = r.method ∧ (C r).pattern = r.text ∧ (C r).rid = r.rid := compileRoute_meta r hn
 
 theorem dyn_step (hash : Bytes → Nat) (Rp : List Route) (rc : RC) (r : Route)
-    (hgp : GoodR Rp) (hgr : NormalPat r.text r.pat ∧ trimSpace r.text = r.text)
+    (hgp : GoodR Rp) (hgr : NormalPat r.text r.pat)
     (hinv : DynInv Rp rc.dynamic) : DynInv (Rp ++ [r]) (rcRegisterR hash rc r).dynamic := by
   obtain ⟨hmem, hnd⟩ := hinv
   -- after RemoveRoute
@@ -165,7 +165,7 @@ theorem dyn_step (hash : Bytes → Nat) (Rp : List Route) (rc : RC) (r : Route)
     · exact hlast r' hr'
     · intro hk
       have hg0 := hgp r0 (by rw [hRp]; simp)
-      obtain ⟨hm0, hp0, _⟩ := C_meta r0 hg0.1 hg0.2
+      obtain ⟨hm0, hp0, _⟩ := C_meta r0 hg0
       apply hxk
       rw [hxc, hm0, hp0]
       exact ⟨hk.1.symm, hk.2.symm⟩
@@ -185,7 +185,7 @@ theorem dyn_step (hash : Bytes → Nat) (Rp : List Route) (rc : RC) (r : Route)
     by_cases hwc : (!(C r).hasWildcard) = true
     · rw [if_pos hwc]
       have hps := sortSpec_perm (swapRemove r.method r.text rc.dynamic ++ [C r])
-      obtain ⟨hmr, hpr, _⟩ := C_meta r hgr.1 hgr.2
+      obtain ⟨hmr, hpr, _⟩ := C_meta r hgr
       refine ⟨?_, ?_⟩
       · intro x hx
         have hx' := (hps.mem_iff).mp hx
